@@ -3,6 +3,8 @@
 
 open Model
 
+type string = String.t
+
 let rec nat_of_int (i : int) : nat = if i <= 0 then O else S (nat_of_int (i - 1))
 
 let nat_of_int i =
